@@ -322,7 +322,12 @@ def discharge_all(res, qualname, self_class, timeout_ms, workers=None):
             got.add(i)
         for i in idxs:
             if i not in got:
-                obs[i].status, obs[i].backend = 'unknown', 'worker lost'
+                # the forked discharger died (sporadic z3 crash) or ran out of time: once more, here
+                try:
+                    discharge(obs[i], timeout_ms)
+                    _replay(qualname, self_class, res, obs[i])
+                except Exception as e:
+                    obs[i].status, obs[i].backend = 'unknown', f'worker lost; retry failed: {type(e).__name__}'
 
 
 def check_pre_sat(con, names, ptys, consts, ct, self_class, is_ctor):
